@@ -962,6 +962,9 @@ func main() {
 	t0 = time.Now()
 	longBatches()
 	phase["long-batches"] = time.Since(t0).Seconds()
+	t0 = time.Now()
+	candidateFamily()
+	phase["candidate-family"] = time.Since(t0).Seconds()
 
 	t0 = time.Now()
 	var st stats
@@ -1115,4 +1118,46 @@ func longBatches() {
 		}
 		run.Distinct(fmt.Sprintf("long/%d/%s", n, j.pat))
 	})
+}
+
+
+// candidateFamily: the FULL structured candidate family (the one C01/C05 offer to Verify; 957 strings
+// around the valid signature) as ONE entry (first, middle or last) of a batch of three: that index is
+// true for exactly one string, the other two indices stay true.
+func candidateFamily() {
+	base := mod(new(big.Int).Add(extraSK, big.NewInt(424242)))
+	ks := []*big.Int{base, mod(new(big.Int).Add(base, big.NewInt(7))), mod(new(big.Int).Add(base, big.NewInt(19)))}
+	pks := make([]crypto.PublicKey, 3)
+	pts := make([]refbls.G1, 3)
+	encs := make([][]byte, 3)
+	for i, k := range ks {
+		pks[i] = libPK(k)
+		pts[i] = hPoint.Mul(k)
+		encs[i] = enc(pts[i])
+	}
+	for pos := 0; pos < 3; pos++ {
+		pos := pos
+		cands := refbls.G1Candidates(pts[pos], hPoint)
+		ev.Par(len(cands), func(i int) {
+			c := cands[i]
+			var st stats
+			defer st.flush()
+			sigs := []crypto.Signature{encs[0], encs[1], encs[2]}
+			sigs[pos] = c.Bytes
+			got, err := crypto.BatchVerifyBLSSignaturesOneMessage(pks, sigs, msg, newHasher())
+			st.add("evaluations", 1)
+			want := []bool{true, true, true}
+			want[pos] = bytes.Equal(c.Bytes, encs[pos])
+			ok := err == nil && len(got) == 3 && got[0] == want[0] && got[1] == want[1] && got[2] == want[2]
+			if !ok {
+				cl := c.Name
+				if k := strings.IndexByte(cl, '/'); k >= 0 {
+					cl = cl[:k]
+				}
+				run.Violation("batch:family:"+cl, fmt.Sprintf("BatchVerifyBLSSignaturesOneMessage with candidate %s at position %d of 3: %v, %v; want %v", c.Name, pos, got, err, want),
+					map[string]any{"candidate": c.Name, "position": pos, "signature": ev.Hex(c.Bytes)})
+			}
+			run.Distinct(fmt.Sprintf("fam/%d/%s", pos, c.Name))
+		})
+	}
 }
